@@ -39,6 +39,9 @@ OPTS = list(itertools.product([False, True], repeat=4))  # name, dtype, class, s
 _DT = ['int64', 'float64', 'bool', '<U5', 'object', 'M8[D]']
 
 
+TECHNIQUE = 'runtime monitoring: executable equivalence relation R(a, b, options) compared with equals() on all ordered pairs of variants, symmetry / transitivity on the answers, and the hash contract of the HE classes'
+
+
 def probes(ctx):
     nat = np.datetime64('NaT', 'D')
     d = np.datetime64('2020-01-01')
